@@ -103,6 +103,13 @@ def run(rep, tier):
         elif r.random() < 0.4:
             # a model_shape column AND the keyword: the keyword is documented to be ignored (each row keeps its own window)
             kw['model_shape'] = r.choice([3, 15, (5, 9)])
+        # discretisation: pixel-centre sampling (default), bilinear interpolation of the corner values, or sub-sampling by a factor
+        dmethod = r.choice(['center', 'center', 'center', 'interp', 'oversample']) if unit is None else 'center'
+        dfactor = r.choice([1, 3, 4, 10])
+        if dmethod != 'center':
+            kw['discretize_method'] = dmethod
+            if dmethod == 'oversample':
+                kw['discretize_oversample'] = dfactor
         replay = {'model': kind, 'shape': [ny, nx], 'table': {c: np.asarray(getattr(tbl[c], 'value', tbl[c])).tolist() for c in tbl.colnames},
                   'unit': None if unit is None else 'Jy', 'kwargs': {kk: vv for kk, vv in kw.items()}}
         snap_params = {p: np.array(getattr(model, p).value) for p in model.param_names}
@@ -131,7 +138,13 @@ def run(rep, tier):
                 setattr(m, pn, tbl[decoy if (decoy and pn == names[2]) else pn][i])
             with warnings.catch_warnings():
                 warnings.simplefilter('ignore')
-                v = m(xx, yy)
+                if dmethod == 'center':
+                    v = m(xx, yy)
+                else:
+                    # the discretised value of a pixel does not depend on the window it is rendered in: full-frame reference
+                    from astropy.convolution import discretize_model
+                    v = discretize_model(m, (0, nx), (0, ny), mode='linear_interp' if dmethod == 'interp' else 'oversample',
+                                         **({'factor': dfactor} if dmethod == 'oversample' else {}))
             vv = np.asarray(getattr(v, 'value', v), float)
             sy = sx = (ms[i] if per_row_shape else mshape)
             x0 = float(getattr(tbl[names[0]][i], 'value', tbl[names[0]][i]))
@@ -143,7 +156,7 @@ def run(rep, tier):
             clipped |= (not ov) or lo_y < 0 or lo_x < 0 or lo_y + sy > ny or lo_x + sx > nx
             unit_expected |= (ov and unit is not None)
         rep.case((kind, ny, nx, tuple(map(tuple, [np.asarray(getattr(tbl[c], 'value', tbl[c])).tolist() for c in tbl.colnames]))),
-                 overlap_any and clipped, kind=f'{kind}:rows{min(nrows, 3)}' + (':unit' if unit is not None else '') + (':params_map' if decoy else ''),
+                 overlap_any and clipped, kind=f'{kind}:rows{min(nrows, 3)}' + (':unit' if unit is not None else '') + (':params_map' if decoy else '') + ('' if dmethod == 'center' else ':' + dmethod),
                  sample={'model': kind, 'shape': [ny, nx], 'nrows': nrows, 'per_row_shape': per_row_shape})
         has_unit = hasattr(img, 'unit')
         # (S) units regardless of which rows overlap
